@@ -246,6 +246,39 @@ func runC16Subscribe(tier string, seed uint64, idx int) core.Result {
 	}
 	vhook.Set("seq.waiter.added", hold)
 	vhook.Set("seq.waiter.initial-read", hold)
+	// writer side: in half of the cases one more subscriber registers (waiter added, initial value read) while the
+	// LAST sequential put sits between building its batch and committing it: whatever that put generates is not in
+	// the database yet, and nothing comes after it that could repair a missed announcement
+	var lateSub atomic.Pointer[kv.SequenceWaiter]
+	lateWanted := rng.IntN(2) == 0
+	var lastPutAt atomic.Int64
+	lastPutAt.Store(-1)
+	if lateWanted {
+		var once sync.Once
+		vhook.Set("db.apply.before", func(string, ...any) {
+			if lp := lastPutAt.Load(); lp < 0 || completed.Load() != lp {
+				return
+			}
+			once.Do(func() {
+				// from another goroutine: when the apply runs inside the writer's own call (the WAL completed the
+				// sync synchronously) the controller is still locked and the registration can only finish afterwards
+				done := make(chan struct{})
+				go func() {
+					defer close(done)
+					w, err := h.L.LC.GetSequenceUpdates(context.Background(), &proto.GetSequenceUpdatesRequest{Shard: 0, Key: prefix})
+					if err == nil {
+						lateSub.Store(&w)
+					}
+				}()
+				select {
+				case <-done:
+					r.Count("subscribers_registered_inside_the_last_apply", 1)
+				case <-time.After(5 * time.Millisecond):
+					r.Count("late_subscribers_registered_after_the_apply", 1)
+				}
+			})
+		})
+	}
 
 	type sub struct {
 		w    kv.SequenceWaiter
@@ -309,6 +342,10 @@ func runC16Subscribe(tier string, seed uint64, idx int) core.Result {
 	for i := 0; i < nPuts; i++ {
 		put := &proto.PutRequest{Key: prefix, Value: []byte(fmt.Sprint(i)), PartitionKey: pb.String("pk"), SequenceKeyDelta: []uint64{uint64(1 + rng.IntN(3))}}
 		refusedByDesign := rng.IntN(6) == 0
+		if i == nPuts-1 {
+			refusedByDesign = false
+			lastPutAt.Store(completed.Load())
+		}
 		if refusedByDesign {
 			put.ExpectedVersionId = pb.Int64(-1) // sequential puts with an expected version are answered UNEXPECTED_VERSION_ID
 		}
@@ -335,6 +372,15 @@ func runC16Subscribe(tier string, seed uint64, idx int) core.Result {
 
 	// quiescence: every write has returned and every subscriber is registered. Drain what each subscriber has.
 	want := latest.Load().(string)
+	if lateWanted {
+		for i := 0; i < 2000 && lateSub.Load() == nil; i++ {
+			time.Sleep(time.Millisecond)
+		}
+	}
+	if w := lateSub.Load(); w != nil {
+		subs = append(subs, &sub{w: *w})
+		plans = append(plans, plan{holdAt: "registered-inside-the-last-apply"})
+	}
 	for i, s := range subs {
 		if s == nil {
 			continue
